@@ -12,6 +12,7 @@ import ChessVerif.Spec.Fen
 import ChessVerif.DriverExtra
 import ChessVerif.DriverSearch
 import ChessVerif.Spec.Mate
+import ChessVerif.Lemmas.OKDec
 open Chess
 
 -- PRNG -------------------------------------------------------------------------------------------
@@ -52,7 +53,9 @@ def modelState (T : ZTable) (p : Position) : String :=
   "|chk=" ++ b2s (isInCheck p p.side) ++ "|mate=" ++ b2s (isCheckmate p) ++ "|stale=" ++ b2s (isStalemate p) ++
   "|rep=" ++ b2s (isRepeated p) ++ "|three=" ++ b2s (threefold p) ++ "|r50=" ++ b2s (rule50 p) ++
   "|mat=" ++ b2s (enoughMaterial p) ++ "|draw=" ++ b2s (isDraw p) ++
-  "|poly=" ++ hex16 (polyKey p) ++ "|hist=" ++ toString p.history.length ++ "|sync=ok"
+  "|poly=" ++ hex16 (polyKey p) ++ "|hist=" ++ toString p.history.length ++
+  -- the standing hypotheses of the C03/C04 theorems (Ranges, UndoOK of every generated move) evaluated here:
+  "|sync=" ++ (if hypothesesHold p then "ok" else "hypotheses-fail")
 
 structure SState where
   cur : Spec.SPos
